@@ -26,6 +26,9 @@ CHECKS = {
     "C06": dict(level="other", engine="fwsym", technique="CrossHair (z3) on the real string-literal escaper + clang front-end acceptance of every enumerated skeleton",
                 text="compiler-front-end acceptance of the C++ emitted for every accepted skeleton of every family (the mandatory first stage of all firmware checks) plus a CrossHair/z3 lemma on string escaping; only the lemma is solver-quantified",
                 note="front end: clang++-14 against mock headers declaring the documented Arduino surface only; real AVR toolchain outside the claim; escaping lemma for printable strings up to the stated length"),
+    "C09": dict(level=TV, engine="fwsym+pysym", technique="symbolic execution of the emitted C++ (IR) with memory/UB monitors under the CPython path condition; heap sampled per pass; ASan/UBSan replay",
+                text="bounded symbolic memory-safety and leak checking of list/str skeletons over N passes, indices constrained by the CPython run to be IndexError-free",
+                note="trusted: fwsym memory model (validated by ASan/UBSan replay), mock String keeps characters inline (core String heap traffic outside the claim)"),
     "C15": dict(level="other", engine="fwsym+pysym", technique="symbolic execution of the emitted firmware IR over symbolic input signals/clock; spec claims decided per path by SMT; host Button by pysym",
                 text="bounded symbolic checking of button sampling/edges over N passes, potentiometer reads (differential vs CPython) and the real ultrasonic helper over a 2-call history reaching every static state, with symbolic echoes and clock",
                 note="trusted: mock core, clock model (delay and pulseIn advance a lower bound), z3/cvc5; N<=3 passes quick"),
